@@ -15,7 +15,8 @@ actuals   actual argument texts (caller variables n, m=n+1, k, r, a(m),
 placement top | loop | if | twice | fexpr | floop | fif | ftwice
 naming    N0 no clash | N1..N4 callee local named t / g / i / k |
           N5 dummies named k, i, r | N6 local named a
-ret       R0 | R1 final `return` | R2 `return` after the first statement
+ret       R0 | R1 final `return` | R2 `return` after the first statement |
+          R3 both
 
 Actual-argument alphabets carry a level (0 = quick, 1 = thorough only); the
 thorough corpus is the quick corpus followed by the thorough-only families, so
@@ -267,6 +268,9 @@ def callee_source(kinds, stmts, naming, ret, function):
         lines.append("return")
     elif ret == "R2":
         lines.insert(1, "return")
+    elif ret == "R3":
+        lines.insert(1, "return")
+        lines.append("return")
     head = (f"  integer function c({', '.join(arglist)})\n" if function
             else f"  subroutine c({', '.join(arglist)})\n")
     tail = "  end function c\n" if function else "  end subroutine c\n"
@@ -507,7 +511,7 @@ def family(fam, kinds_list, allowed, maxlen, level, places, namings=("N0",),
                         if naming == "N2" and "gmod" in body:
                             continue
                         for ret in rets:
-                            if ret == "R2" and nlen < 2:
+                            if ret in ("R2", "R3") and nlen < 2:
                                 continue
                             yield make_key(fam, kinds, body, acts, place, naming, ret)
 
@@ -570,7 +574,7 @@ def quick_families():
                  actual_filter=only(("a", "b(1:n)", "q(:, k)")))
     yield family("NM", ["M"], ["mloop"], 1, lev, ["top", "loop"], namings=CLASH)
     yield family("RT", ["S", "A"], ["inc", "set", "el", "loop"], 2, lev,
-                 ["top", "loop"], rets=["R1", "R2"],
+                 ["top", "loop"], rets=["R1", "R2", "R3"],
                  actual_filter=only(("k", "a(i)", "a", "b(1:n)")))
     yield family("GM", ["S"], ["gmod", "inc"], 2, lev, ["top"],
                  body_filter=lambda b: "gmod" in b,
@@ -627,7 +631,7 @@ def thorough_families():
                  actual_filter=only(("a", "b(1:n)", "q(:, k)")))
     yield family("NM", ["M", "N"], ["mloop", "mel"], 2, lev, SUB, namings=names)
     yield family("RT", ["S", "A", "SS"], ["inc", "set", "el", "loop", "cpy"], 2,
-                 lev, SUB, rets=["R1", "R2"],
+                 lev, SUB, rets=["R1", "R2", "R3"],
                  actual_filter=lambda kinds, acts: all(
                      a in ("k", "i", "a(i)", "a", "b(1:n)") for a in acts))
     yield family("FN", ["S"], ["inc", "get", "put"], 2, lev, FUN,
